@@ -24,6 +24,9 @@ var scAvoid = "{}"
 // scLight: the family issues several requests per occurrence; its quick tier uses a smaller exhaustive core.
 var scLight = false
 
+// scKinds: statement forms enabled for the full BFS and the simulation (default: all).
+var scKinds = scAllKinds
+
 func scCfg(names string, maxItems, maxDepth, maxFiles int, kinds string, emitMin int, next string, invs string) string {
 	return fmt.Sprintf(`CONSTANTS
   Avoid = `+scAvoid+`
@@ -350,7 +353,7 @@ func scopeRuns(c *Ctx, p *pool.Pool, build func(id int, raw json.RawMessage) *Jo
 		}
 	}
 	if !c.streamRun("bfs", tlc.Run{Module: "Scope", Workers: 8, Timeout: 30 * time.Minute,
-		Cfg: scCfg(`{"a","b"}`, items, 3, 2, scAllKinds, 1, "Next", invs)}, p, 8, build, judge) {
+		Cfg: scCfg(`{"a","b"}`, items, 3, 2, scKinds, 1, "Next", invs)}, p, 8, build, judge) {
 		return false
 	}
 	if c.Thorough() {
@@ -366,7 +369,7 @@ func scopeRuns(c *Ctx, p *pool.Pool, build func(id int, raw json.RawMessage) *Jo
 	}
 	if !c.streamRun("simulated", tlc.Run{Module: "Scope", Workers: 1, Timeout: 60 * time.Minute,
 		Simulate: fmt.Sprintf("num=%d", num), Depth: depth + 1,
-		Cfg: scCfg(`{"a","b"}`, depth, 5, 2, scAllKinds, depth, "Next", "Emit")}, p, 8, build, judge) {
+		Cfg: scCfg(`{"a","b"}`, depth, 5, 2, scKinds, depth, "Next", "Emit")}, p, 8, build, judge) {
 		return false
 	}
 	c.Rep.Exhaustive = true
